@@ -91,13 +91,19 @@ def check_seq(ctx, seq, container=list):
         return m
     if status_nonint:
         ctx.count('nonint status outcome')
-        ok = midi1.valid(m) is None and m.bytes() == list(seq)
-        ctx.check('bytes()==input', ok, 'nonint-status-bad-message', case, repr(m))
+        try:
+            ok = midi1.valid(m) is None and m.bytes() == list(seq)
+        except Exception as exc:
+            ok = False
+        ctx.check('bytes()==input', ok, 'nonint-status-bad-message', case, repr(vars(m))[:160])
         return m
     acc = midi1.accept(seq)
     ctx.check('accepted => wellformed', acc, 'accepted-malformed:' + key, case,
               lambda: f'returned {m!r}')
-    b = m.bytes()
+    try:
+        b = m.bytes()
+    except Exception as exc:
+        b = [f'bytes() raised {type(exc).__name__}']
     ctx.check('bytes()==input', b == list(seq) and midi1.valid(m) is None,
               'bytes-differ:' + key, case, lambda: {'bytes': b[:30], 'msg': repr(m)[:200]})
     return m
@@ -188,7 +194,7 @@ def grid_cases(tier):
                 yield [s, *rest]
 
 
-ODD = [-1, -112, -16, -8, -256, 256, 400, 2 ** 70, -2 ** 70, 1.0, 144.0, 60.0, 0.5, float('nan'), 'a', '1',
+ODD = ['clock', 'note_on', 'sysex', 'reset', 'songpos', 'tune_request', 'pitchwheel', b'\x90', -1, -112, -16, -8, -256, 256, 400, 2 ** 70, -2 ** 70, 1.0, 144.0, 60.0, 0.5, float('nan'), 'a', '1',
        None, [1], (1,), b'\x01', True, False, fractions.Fraction(60),
        fractions.Fraction(1, 2), decimal.Decimal(60), 1j, 248.0, 240.0, 247.0]
 
@@ -239,6 +245,26 @@ def history_cases(ctx):
         for seq in ([], [0x90], [0x90, 1], [0x90, 1, 2, 3], [0xF0], [0xF0, 1],
                     [0xF7], [0x00], [0xF4], [0xF0, 0x80, 0xF7], [0x90, 0x80, 1]):
             check_seq(ctx, seq, cont)
+            n += 1
+    return n
+
+
+def positional_time_cases(ctx):
+    """from_bytes(data, time) with the time given positionally: the data is judged exactly as before."""
+    n = 0
+    for seq in ([0x90, 0x40, 200], [0x90, 1], [0xF0, 1, 0xF8, 0xF7], [0x90, 300, 1], [0x90, 1.5, 2], [0xF4], [0xE0, 1],
+                [0x90, 1, 2], [0xF0, 1, 0xF7], [0xF8]):
+        ints = all(isinstance(x, int) for x in seq)
+        for tpos in (480, 1, 0.5, True):
+            case = {'kind': 'positional-time', 'seq': [repr(x) for x in seq], 'time': repr(tpos)}
+            try:
+                m = Message.from_bytes(list(seq), tpos)
+                ok = ints and midi1.accept(seq) and m.bytes() == seq and m.time == tpos
+                ctx.check('accepted => wellformed', ok, 'positional-time-accepted-malformed', case, repr(m))
+            except (ValueError, TypeError):
+                ctx.check('rejected => malformed', not (ints and midi1.accept(seq)), 'positional-time-rejected-wellformed', case, None)
+            except Exception as exc:
+                ctx.check('exception class', False, f'positional-time:{type(exc).__name__}', case, str(exc))
             n += 1
     return n
 
@@ -382,7 +408,7 @@ def run(ctx):
         ctx.extra('cases_repeated_after_perturbations', h)
         n += h
     if ctx.shard == 4 % ctx.nshards:
-        h = array_and_long_cases(ctx)
+        h = array_and_long_cases(ctx) + positional_time_cases(ctx)
         ctx.nontrivial(None, h)
         ctx.extra('array_and_long_sysex_cases', h)
         n += h
